@@ -62,7 +62,10 @@ def field_value(rng, p):
 def field_pair(rng, p):
     """(a, b, pairclass): related operand pairs"""
     a, ca = field_value(rng, p)
-    k = rng.randrange(9)
+    k = rng.randrange(10)
+    if k == 9:
+        x, y = mont_digit_pair(rng, p)
+        return x, y, 'mont-digits'
     if k == 0:
         return a, a, 'same'
     if k == 1:
@@ -80,6 +83,70 @@ def field_pair(rng, p):
         return a, rm.unmont(mb % p, p), 'mont-sum'
     b, cb = field_value(rng, p)
     return a, b, 'indep'
+
+
+
+# --------------------------------------------------------------------------- Montgomery quotient-digit directed operands
+def _digit_pattern(rng):
+    """a 256-bit K whose 64-bit digits are drawn from {0, 1, 2^64-1, 2^63, random}: K is the sequence of Montgomery
+    quotient digits k_0..k_3 the reduction will compute"""
+    K = 0
+    for i in range(4):
+        c = rng.randrange(6)
+        d = 0 if c in (0, 1) else M64 if c == 2 else 1 if c == 3 else (1 << 63) if c == 4 else rng.getrandbits(64)
+        K |= d << (64 * i)
+    return K
+
+
+def sqrt_mod_2_256(T):
+    """some a with a*a = T mod 2^256 for T = 1 mod 8 (Hensel lifting), else None"""
+    if T % 8 != 1:
+        return None
+    a = 1
+    for k in range(3, 257):
+        # invariant: a*a = T mod 2^k ; lift to 2^(k+1)
+        if (a * a - T) % (1 << (k + 1)) != 0:
+            a += 1 << (k - 1)
+    a %= 1 << 256
+    return a if (a * a - T) % (1 << 256) == 0 else None
+
+
+def mont_digit_pair(rng, p):
+    """(a, b): field values whose stored Montgomery representatives A, B satisfy A*B = -K*p mod 2^256 for a digit pattern K,
+    i.e. Montgomery reduction of A*B computes exactly the quotient digits of K (zero digits, all-ones digits ...)"""
+    pinv = pow(p, -1, R)
+    for _ in range(200):
+        K = _digit_pattern(rng)
+        T = (-K * p) % R
+        A = rng.getrandbits(256) | 1
+        if A >= p:
+            A >>= 1
+            A |= 1
+        B = T * pow(A, -1, R) % R
+        if B < p:
+            return rm.unmont(A, p), rm.unmont(B, p)
+    return rng.randrange(p), rng.randrange(p)
+
+
+def mont_digit_square(rng, p):
+    """a field value whose Montgomery representative A satisfies A*A = -K*p mod 2^256 for a digit pattern K"""
+    for _ in range(400):
+        K = _digit_pattern(rng)
+        # make T = -K*p = 1 mod 8 by adjusting the low three bits of K
+        for low in range(8):
+            K2 = (K & ~7) | low
+            T = (-K2 * p) % R
+            if T % 8 == 1:
+                break
+        else:
+            continue
+        A = sqrt_mod_2_256(T)
+        if A is None:
+            continue
+        for cand in (A, R - A, (A + (1 << 255)) % R, (R - A + (1 << 255)) % R):
+            if cand < p and (cand * cand - T) % R == 0:
+                return rm.unmont(cand, p)
+    return rng.randrange(p)
 
 
 def fq2_value(rng):
@@ -139,8 +206,10 @@ def scalar_r(rng):
 
 
 # --------------------------------------------------------------------------- point representations
-LAMBDAS1 = [q - 1, 2, 1 << 255, (q - 1) // 2, 3]
-LAMBDAS2 = [(q - 1, 0), (0, 1), (2, 0), (0, q - 1), (1, 1), (1 << 255, 0)]
+# rescaling factors: -1, small, large, and values whose stored Montgomery representative is 1, 2, 2^255, q-1 (R^-1 mod q etc.)
+LAMBDAS1 = [q - 1, 2, 1 << 255, (q - 1) // 2, 3, rm.unmont(1, q), rm.unmont(2, q), R % q, rm.unmont(q - 1, q), rm.unmont(1 << 255, q)]
+LAMBDAS2 = [(q - 1, 0), (0, 1), (2, 0), (0, q - 1), (1, 1), (1 << 255, 0), (1, 5), (1, q - 1), (0, 1234567890123456789), (rm.unmont(1, q), 0),
+            (0, rm.unmont(1, q)), (rm.unmont(1, q), rm.unmont(1, q)), (1, rm.unmont(1, q))]
 
 
 def lam_for(rng, which):
